@@ -17,6 +17,8 @@ struct Batch {
     probes: Vec<Value>,
     forks: Vec<i64>,
     reaps: Vec<i64>,
+    /// other processes terminated by a signal the actor sent
+    kills: Vec<i64>,
     ex: bool,
     xs: i64,
     odd: Vec<String>,
@@ -25,7 +27,7 @@ struct Batch {
 impl Batch {
     fn to_json(&self, run: u64) -> Value {
         json!({"ev": "batch", "run": run, "actor": self.actor, "probes": self.probes, "forks": self.forks,
-               "reaps": self.reaps, "ex": self.ex, "xs": self.xs, "odd": self.odd})
+               "reaps": self.reaps, "kills": self.kills, "ex": self.ex, "xs": self.xs, "odd": self.odd})
     }
 }
 
@@ -119,8 +121,14 @@ fn record(r: &ShellResult) -> Recorded {
                             // the initial process
                         } else {
                             let bt = batch_for(&mut batches, actor);
+                            // fork, and possibly kill and wait, in one step of the actor
                             bt.forks.push(pid);
-                            if st != "R" || ch || ppid != actor {
+                            if st.starts_with('K') && ppid == actor {
+                                bt.kills.push(pid);
+                                if !ch {
+                                    bt.reaps.push(pid);
+                                }
+                            } else if st != "R" || ch || ppid != actor {
                                 bt.odd.push(format!("new process {pid} ppid={ppid} st={st} ch={ch} seen in a step of {actor}"));
                             }
                         }
@@ -135,6 +143,13 @@ fn record(r: &ShellResult) -> Recorded {
                                 Some(xs) if ch && pid == actor && !bt.ex => {
                                     bt.ex = true;
                                     bt.xs = xs;
+                                }
+                                Some(_) if pid != actor && st.starts_with('K') => {
+                                    // killed by the actor (and possibly reaped in the same step)
+                                    bt.kills.push(pid);
+                                    if !ch {
+                                        bt.reaps.push(pid);
+                                    }
                                 }
                                 _ => bt.odd.push(format!("process {pid}: {ost} -> {st} ch={ch} in a step of {actor}")),
                             }
@@ -183,11 +198,40 @@ fn record(r: &ShellResult) -> Recorded {
     Recorded { batches, end, digest }
 }
 
+/// `mypid`: prints the simulated process id of the calling process (a
+/// pipeline member publishes it through a FIFO so that another process can
+/// signal it).
+fn mypid_main(
+    env: &mut yvcommon::shell::VEnv,
+    _args: Vec<yash_env::semantics::Field>,
+) -> std::pin::Pin<Box<dyn Future<Output = yash_env::builtin::Result> + '_>> {
+    use yash_env::system::GetPid as _;
+    use yash_env::system::concurrency::WriteAll as _;
+    Box::pin(async move {
+        let line = format!("{}\n", env.system.getpid().0);
+        let st = match env.system.write_all(yash_env::io::Fd::STDOUT, line.as_bytes()).await {
+            Ok(()) => 0,
+            Err(_) => 1,
+        };
+        yash_env::builtin::Result::new(yash_env::semantics::ExitStatus(st))
+    })
+}
+
 fn run(text: &str, schedule: Schedule) -> ShellResult {
     let mut cfg = ShellCfg::command(text);
     cfg.schedule = schedule;
     cfg.step_limit = STEP_LIMIT;
     cfg.trace_procs = true;
+    // FIFOs nobody writes to unless the script does: `sink </tmp/fifo` blocks
+    for f in ["/tmp/fifo", "/tmp/pf", "/tmp/ff"] {
+        cfg.files.push(yvcommon::shell::FileSpec::Fifo { path: f.to_string() });
+    }
+    cfg.setup = Some(Box::new(|env, _state| {
+        env.builtins.insert(
+            "mypid",
+            yash_env::builtin::Builtin::new(yash_env::builtin::Type::Mandatory, mypid_main),
+        );
+    }));
     run_shell(cfg)
 }
 
@@ -351,6 +395,12 @@ pub fn one(args: &[String]) -> i32 {
         .map(|s| s.parse().expect("prefix"))
         .collect();
     let r = run(text, Schedule::Prefix(prefix));
+    if args.iter().any(|a| a == "--raw") {
+        for e in &r.events {
+            eprintln!("{e}");
+        }
+        eprintln!("stderr: {}", r.stderr_str());
+    }
     let rec = record(&r);
     let mut f = std::io::BufWriter::new(std::fs::File::create(opt(args, "--out").expect("--out")).expect("create out"));
     writeln!(f, "{}", json!({"ev": "reset", "run": 1, "sid": sid})).unwrap();
